@@ -334,3 +334,6 @@ def run(repo: Repo, rep: Report, tier: str) -> None:
     # ---------------- R13 --------------------------------------------------------------
     _borrow12b(repo, rep, "C15", "C15-R5", "C12-R13", "a name inside a function body means the function's own parameter or local, not a top-level name another computation happens to "
                "use: every identifier resolution in the lowering asks the parameter environment first", floor=2)
+
+    # ---------------- R14 --------------------------------------------------------------
+    _borrow12b(repo, rep, "C15", "C15-R26", "C12-R14", "a memory local to one function is typed by that function's declaration, whatever another computation calls its memories", floor=1)
